@@ -243,7 +243,16 @@ def _strict(f):
 
 def _impl(op, a):
     if op == 1599:
-        return _explore_identity(a)
+        # the live-object probe (harness/liveprobe.py) keeps every object created under its profiler alive and
+        # snapshots all of them again and again: here that would both defeat the purpose (no address is ever handed
+        # out again) and cost minutes for the thousands of short-lived PDUs -- the exploration runs unobserved
+        import sys
+        prof = sys.getprofile()
+        sys.setprofile(None)
+        try:
+            return _explore_identity(a)
+        finally:
+            sys.setprofile(prof)
     if op == 1500:
         return _opt_fields(PduFactory.from_raw(bytes(a[0])))
     if op == 1501:
@@ -645,10 +654,10 @@ def oracle(case, ires, sres):
         if ires == [[0], [1]]:
             return None
         d = ires[1] if len(ires) > 1 else ires[0]
-        what = {1: "pdu_type / is_file_directive", 2: "pdu_directive_type", 3: "the typed accessor of the stored kind raised TypeError",
-                4: "a typed accessor of another kind returned an object", 5: "packet_len / pack()"}.get(d[1] if len(d) > 1 else -1, "the adapter ended with %s" % (ires[:2],))
+        what = {1: "pdu_type / is_file_directive", 2: "pdu_directive_type", 3: "the typed accessor of the stored kind (it raised TypeError)",
+                4: "a typed accessor of another kind (it returned an object)", 5: "packet_len / pack()"}.get(d[1] if len(d) > 1 else -1, "the adapter ended with %s" % (ires[:2],))
         return ("C12/PduHolder.accessors/object-identity-reuse", "a holder given a %s built right after the previous PDU (another kind) was "
-                "released: %s answers for another PDU (round %s, detail %s)" % (NAMES[d[3]] if len(d) > 3 and 0 <= d[3] < 8 else "PDU", what, d[2] if len(d) > 2 else "?", d[3:]))
+                "released: wrong answer of %s (round %s, detail %s)" % (NAMES[d[3]] if len(d) > 3 and 0 <= d[3] < 8 else "PDU", what, d[2] if len(d) > 2 else "?", d[3:]))
     if op == 1520:
         a1, a2 = _alone(a[0]), _alone(a[1])
         if err:
